@@ -1,4 +1,4 @@
-use std::{cmp, mem, slice::Iter};
+use std::{mem, slice::Iter};
 
 use rosu_map::section::general::GameMode;
 
@@ -134,22 +134,19 @@ impl TaikoGradualDifficulty {
     }
 }
 
-fn extend_lifetime(
-    iter: Iter<'_, RefCount<TaikoDifficultyObject>>,
-) -> Iter<'static, RefCount<TaikoDifficultyObject>> {
-    // SAFETY: The underlying data will never be moved.
-    unsafe { mem::transmute(iter) }
-}
-
-impl Iterator for TaikoGradualDifficulty {
-    type Item = TaikoDifficultyAttributes;
-
-    fn next(&mut self) -> Option<Self::Item> {
+impl TaikoGradualDifficulty {
+    /// Proceed to the next hit without evaluating the skills.
+    ///
+    /// Returns `None` if there is no hit left.
+    fn advance(&mut self) -> Option<()> {
         // The first difficulty object belongs to the third note since each
         // difficulty object requires the current, the last, and the second to
-        // last note. Hence, if we're still on the first or second object, we
-        // don't have a difficulty object yet and just skip processing.
-        if self.idx >= 2 {
+        // last note. Hence, hits among the first two objects only add to the
+        // combo; every later hit is found by processing difficulty objects
+        // until the next hit shows up.
+        if self.idx < self.first_combos.n_hits() {
+            self.attrs.max_combo += 1;
+        } else {
             loop {
                 let curr = self.diff_objects_iter.next()?;
                 let borrowed = curr.get();
@@ -168,19 +165,37 @@ impl Iterator for TaikoGradualDifficulty {
                     break;
                 }
             }
-        } else if self.diff_objects.is_empty() {
-            return None;
-        } else {
-            match self.first_combos {
-                FirstTwoCombos::OnlyFirst => self.attrs.max_combo = 1,
-                FirstTwoCombos::OnlySecond if self.idx == 1 => self.attrs.max_combo = 1,
-                FirstTwoCombos::Both if self.idx == 0 => self.attrs.max_combo = 1,
-                FirstTwoCombos::Both if self.idx == 1 => self.attrs.max_combo = 2,
-                _ => {}
-            }
         }
 
         self.idx += 1;
+
+        Some(())
+    }
+}
+
+impl FirstTwoCombos {
+    /// The amount of hits among the first two objects.
+    const fn n_hits(self) -> usize {
+        match self {
+            Self::None => 0,
+            Self::OnlyFirst | Self::OnlySecond => 1,
+            Self::Both => 2,
+        }
+    }
+}
+
+fn extend_lifetime(
+    iter: Iter<'_, RefCount<TaikoDifficultyObject>>,
+) -> Iter<'static, RefCount<TaikoDifficultyObject>> {
+    // SAFETY: The underlying data will never be moved.
+    unsafe { mem::transmute(iter) }
+}
+
+impl Iterator for TaikoGradualDifficulty {
+    type Item = TaikoDifficultyAttributes;
+
+    fn next(&mut self) -> Option<Self::Item> {
+        self.advance()?;
 
         let mut attrs = self.attrs.clone();
         let is_relax = self.difficulty.get_mods().rx();
@@ -200,70 +215,13 @@ impl Iterator for TaikoGradualDifficulty {
         // As per `Iterator::nth`, if fewer than `n + 1` items remain, all of
         // them are consumed and `None` is returned.
         if n >= self.len() {
-            while self.next().is_some() {}
+            while self.advance().is_some() {}
 
             return None;
         }
 
-        let mut take = cmp::min(n, self.len().saturating_sub(1));
-
-        // The first two notes have no difficulty object but might add to combo
-        match (take, self.idx) {
-            (_, 2..) | (0, _) => {}
-            (1, 0) => {
-                take -= 1;
-                self.idx += 1;
-
-                match self.first_combos {
-                    FirstTwoCombos::None => {}
-                    FirstTwoCombos::OnlyFirst => self.attrs.max_combo = 1,
-                    FirstTwoCombos::OnlySecond => {}
-                    FirstTwoCombos::Both => self.attrs.max_combo = 1,
-                }
-            }
-            (_, 0) => {
-                take -= 2;
-                self.idx += 2;
-
-                match self.first_combos {
-                    FirstTwoCombos::None => {}
-                    FirstTwoCombos::OnlyFirst => self.attrs.max_combo = 1,
-                    FirstTwoCombos::OnlySecond => self.attrs.max_combo = 1,
-                    FirstTwoCombos::Both => self.attrs.max_combo = 2,
-                }
-            }
-            (_, 1) => {
-                take -= 1;
-                self.idx += 1;
-
-                match self.first_combos {
-                    FirstTwoCombos::None => {}
-                    FirstTwoCombos::OnlyFirst => self.attrs.max_combo = 1,
-                    FirstTwoCombos::OnlySecond => self.attrs.max_combo = 1,
-                    FirstTwoCombos::Both => self.attrs.max_combo = 2,
-                }
-            }
-        }
-
-        for _ in 0..take {
-            loop {
-                let curr = self.diff_objects_iter.next()?;
-                let borrowed = curr.get();
-                self.skills.rhythm.process(&borrowed, &self.diff_objects);
-                self.skills.reading.process(&borrowed, &self.diff_objects);
-                self.skills.color.process(&borrowed, &self.diff_objects);
-                self.skills.stamina.process(&borrowed, &self.diff_objects);
-                self.skills
-                    .single_color_stamina
-                    .process(&borrowed, &self.diff_objects);
-
-                if borrowed.base_hit_type.is_hit() {
-                    self.attrs.max_combo += 1;
-                    self.idx += 1;
-
-                    break;
-                }
-            }
+        for _ in 0..n {
+            self.advance()?;
         }
 
         self.next()
